@@ -14,6 +14,9 @@ func runC18(p *Program, r *Report) {
 	shape := NewReport("C18", r.Tier, r.Seed)
 	runC18Shape(p, shape)
 	if !reportFails(shape) && os.Getenv("C18_FORCE_LANG") == "" {
+		lang := NewReport("C18", r.Tier, r.Seed)
+		c18ByLanguage(p, lang)
+		crossCheck(shape, lang)
 		mergeReport(r, shape)
 		return
 	}
